@@ -215,7 +215,6 @@ Proof.
         -- rewrite Hd. unfold persisted, present in *. destruct (flook d (s_files s)); discriminate || auto.
         -- intros _ H. apply up_at_add_tset in H. destruct H as [H|[ns H]]; auto; discriminate.
       * intros Hb Hk. pose proof (i_g1 _ _ I _ Hb Hk) as Q. apply persisted_present in Q. congruence.
-      * apply (i_g2 _ _ I).
   - (* USetP *)
     specialize (G eq_refl).
     destruct (present d (s_files s)) eqn:P; cbn [fst].
@@ -229,8 +228,6 @@ Proof.
         -- rewrite Hd; auto.
         -- intros Hw _. destruct x as [tx [| |dx pcx]]; cbn in Hw; try discriminate. cbn in Hd; subst dx.
            rewrite (fc_in_window_In _ _ _ _ Hx Hw) in G; discriminate.
-      * intros Hb Hk. auto.
-      * apply (i_g2 _ _ I).
     + apply inv_thr_only; auto.
       * intros x Hx. apply In_tremove in Hx; auto.
       * intros d'; apply up_at_add_tremove.
@@ -252,7 +249,6 @@ Proof.
         destruct pcx; cbn in Hw; try discriminate; cbn in Cx; destruct Cx as [Cx _]; congruence.
       * eapply thr_ok_mono; [apply (i_thr _ _ I); auto| | | | |]; simp_st; auto; try congruence.
         -- intros H; apply kmem_add_key_mono; auto.
-    + intros Hb _. apply C; auto.
     + intros Hb Ha. apply kmem_add_key_mono. apply (i_g2 _ _ I); auto.
   - (* UMeta *)
     destruct (present d (s_files s)) eqn:P; cbn [fst]; apply inv_thr_only; auto.
@@ -269,8 +265,257 @@ Proof.
     + intros H; apply In_tremove in H. apply (i_thr _ _ I _ H).
     + intros x Hx Hd _. eapply thr_ok_mono; [apply (i_thr _ _ I); auto| | | | |]; simp_st; auto.
       intros _; apply up_at_add_tremove.
-    + apply (i_g1 _ _ I).
     + intros Hb _. apply C; auto.
+Qed.
+
+
+(* ---- worker executions *)
+Lemma ex_vacuous : forall s s1 t d th1,
+  Inv s -> kmem (kof d) (s_back s1) = true ->
+  s_tasks s1 = s_tasks s -> s_acked s1 = s_acked s -> s_thr s1 = s_thr s ->
+  (forall k', kmem k' (s_back s) = true -> kmem k' (s_back s1) = true) ->
+  (forall d', d' <> d -> flook d' (s_files s1) = flook d' (s_files s)) ->
+  thr_digest th1 = d -> thr_wf th1 ->
+  Inv (with_thr s1 (tset t th1 (s_thr s1))).
+Proof.
+  intros s s1 t d th1 I B T A Th Bm Ff D W.
+  eapply inv_vacuous with (d0 := d); simp_st; eauto.
+  - intros k _; rewrite T; auto.
+  - intros k _; rewrite A; auto.
+  - intros d' Hd H. apply up_at_add_tset in H. rewrite Th in H. destruct H as [H|[ns H]]; auto.
+    subst th1; cbn in D; congruence.
+  - intros x Hx Hd. apply In_tset in Hx. rewrite Th in Hx. destruct Hx as [Hx| ->]; auto.
+    cbn in Hd; congruence.
+  - rewrite T; apply I.
+  - rewrite A; apply I.
+  - intros x Hx Hd. apply In_tset in Hx. rewrite Th in Hx. destruct Hx as [Hx| ->]; auto.
+    eapply inv_thr_wf; eauto.
+Qed.
+
+Lemma step_ex : forall s t ns d ph up,
+  Inv s -> tlook t (s_thr s) = Some (TEx ns d ph) ->
+  (ph = EOpen false -> fx = true) ->
+  Inv (fst (step_thread fx t (TEx ns d ph) up s)).
+Proof.
+  intros s t ns d ph up I Ht G. apply tlook_In in Ht.
+  destruct (i_thr _ _ I _ Ht) as [W C]. cbn in W, C. subst ns.
+  assert (Rm : Inv (with_thr s (tremove t (s_thr s)))).
+  { apply inv_thr_only; auto.
+    - intros x Hx. apply In_tremove in Hx; auto.
+    - intros d'; apply up_at_add_tremove. }
+  assert (Gen : forall ph', ph' = ph -> (forall ok, ph <> ERet ok) ->
+            Inv (fst (let '(s1, ph1, r) := exec_step fx (nsof d, d) ph' up s in
+                      (with_thr s1 (tset t (TEx (nsof d) d ph1) (s_thr s1)), r)))).
+  { intros ph' -> NR.
+    destruct (kmem (kof d) (s_back s)) eqn:Hb.
+    - destruct (exec_step fx (nsof d, d) ph up s) as [[s1 ph1] r] eqn:E.
+      destruct (exec_step_shape _ _ _ _ _ _ _ E) as [T [A [Th [Bm Ff]]]]. cbn [fst].
+      eapply ex_vacuous with (s := s) (d := d); eauto; cbn; auto.
+    - destruct (C eq_refl) as [Tk Cl].
+      pose proof (i_g1 _ _ I _ Hb Tk) as P.
+      destruct (exec_step_good (nsof d, d) ph up s Hb P Cl G) as [[ph1 [r [E Cl1]]]|[r E]]; rewrite E; cbn [fst].
+      + apply inv_thr_only; auto.
+        * intros x Hx. apply In_tset in Hx. destruct Hx as [Hx| ->]; auto. right; split; cbn; auto.
+        * intros d' H. apply up_at_add_tset in H. destruct H as [H|[ns H]]; auto; discriminate.
+      + eapply ex_vacuous with (s := s) (d := d); simp_st; eauto; cbn; auto.
+        * apply kmem_add_key_self.
+        * intros; apply kmem_add_key_mono; auto. }
+  destruct ph as [ | |fresh| | |ok]; cbn [step_thread];
+    try (apply Gen; [reflexivity | intros ok' HH; discriminate]).
+  destruct ok; cbn [fst]; auto.
+  (* ERet true: the row is removed; then (nsof d, d) is in the backend *)
+  destruct (kmem (kof d) (s_back s)) eqn:Hb.
+  - clear Rm Gen. eapply inv_vacuous with (s := s) (d0 := d); simp_st; eauto.
+    + intros k Hk. apply kmem_kremove_other. intros ->; cbn in Hk; congruence.
+    + intros d'; intros _; apply up_at_add_tremove.
+    + intros x Hx _. apply In_tremove in Hx; auto.
+    + apply keys_wf_remove; apply I.
+    + apply I.
+    + intros x Hx _. apply In_tremove in Hx. eapply inv_thr_wf; eauto.
+  - destruct (C eq_refl) as [_ Cl]; discriminate.
+Qed.
+
+
+(* ---- forced cleanup threads *)
+Lemma thr_cond_fc : forall s s' d pc,
+  thr_cond s (TFc d pc) -> s_tasks s' = s_tasks s ->
+  (up_at_add d (s_thr s') = true -> up_at_add d (s_thr s) = true) ->
+  thr_cond s' (TFc d pc).
+Proof.
+  intros s s' d pc C T U. cbn in *. destruct pc; auto; rewrite T.
+  - destruct C as [C1 C2]; split; auto. destruct (up_at_add d (s_thr s')) eqn:E; auto. rewrite U in C1; auto.
+  - destruct C as [C1 C2]; split; auto. destruct (up_at_add d (s_thr s')) eqn:E; auto. rewrite U in C1; auto.
+Qed.
+
+Lemma up_at_add_tset_fc : forall d d' t pc l,
+  up_at_add d (tset t (TFc d' pc) l) = true -> up_at_add d l = true.
+Proof. intros d d' t pc l H. apply up_at_add_tset in H. destruct H as [H|[ns H]]; auto; discriminate. Qed.
+
+Lemma step_fc : forall s t d pc up,
+  Inv s -> tlook t (s_thr s) = Some (TFc d pc) ->
+  (pc = FFind -> up_at_add d (s_thr s) = false) ->
+  (forall todo att, pc = FSync todo (EOpen false) att -> fx = true) ->
+  Inv (fst (step_thread fx t (TFc d pc) up s)).
+Proof.
+  intros s t d pc up I Ht G1 G2. apply tlook_In in Ht.
+  destruct (i_thr _ _ I _ Ht) as [W C]. cbn [thr_digest snd] in C, W.
+  assert (Rm : Inv (with_thr s (tremove t (s_thr s)))).
+  { apply inv_thr_only; auto.
+    - intros x Hx. apply In_tremove in Hx; auto.
+    - intros d'; apply up_at_add_tremove. }
+  (* moving to a program counter that carries no condition *)
+  assert (Triv : forall pc', thr_cond s (TFc d pc') -> thr_wf (TFc d pc') ->
+                 (forall s', s_tasks s' = s_tasks s -> s_back s' = s_back s ->
+                    (up_at_add d (s_thr s') = true -> up_at_add d (s_thr s) = true) -> True) ->
+                 True) by auto.
+  clear Triv.
+  assert (Mv : forall pc', thr_wf (TFc d pc') ->
+            (kmem (kof d) (s_back s) = false ->
+               thr_cond (with_thr s (tset t (TFc d pc') (s_thr s))) (TFc d pc')) ->
+            Inv (with_thr s (tset t (TFc d pc') (s_thr s)))).
+  { intros pc' W' C'. apply inv_thr_only; auto.
+    - intros x Hx. apply In_tset in Hx. destruct Hx as [Hx| ->]; auto. right; split; auto.
+    - intros d'; apply up_at_add_tset_fc. }
+  destruct pc as [ | | |todo ph att| | ]; cbn [step_thread].
+  - (* FStat *) destruct (present d (s_files s)); cbn [fst]; auto; apply Mv; cbn [thr_cond thr_wf]; auto.
+  - (* FGetP *) destruct (persisted d (s_files s)); cbn [fst]; apply Mv; cbn [thr_cond thr_wf]; auto.
+  - (* FFind *)
+    specialize (G1 eq_refl).
+    assert (U : forall pc', up_at_add d (tset t (TFc d pc') (s_thr s)) = false).
+    { intros pc'. destruct (up_at_add d (tset t (TFc d pc') (s_thr s))) eqn:E; auto.
+      apply up_at_add_tset_fc in E; congruence. }
+    destruct (tasks_named d (s_tasks s)) as [|h l] eqn:TN; cbn [fst]; apply Mv; cbn [thr_cond thr_wf]; auto.
+    + intros Hb; simp_st. split; auto.
+      destruct (kmem (kof d) (s_tasks s)) eqn:E; auto. apply kmem_In in E.
+      assert (In (kof d) (tasks_named d (s_tasks s))) by (apply tasks_named_In; auto).
+      rewrite TN in H; contradiction.
+    + apply Forall_forall. intros h' Hh. rewrite <- TN in Hh. apply tasks_named_In in Hh.
+      destruct Hh as [Hh <-]. apply kmem_In in Hh. eapply keys_wf_kmem; eauto. apply I.
+    + intros Hb; simp_st. split; auto. split; [|intros _; discriminate]. intros _; split; auto.
+      assert (Hh : In h (tasks_named d (s_tasks s))) by (rewrite TN; left; auto).
+      apply tasks_named_In in Hh. destruct Hh as [Hh Hd]. apply kmem_In.
+      assert (h = kof (snd h)) by (apply kmem_In in Hh; eapply keys_wf_kmem; eauto; apply I).
+      rewrite Hd in H. rewrite <- H; auto.
+  - (* FSync *)
+    cbn in W.
+    destruct todo as [|h rest].
+    { cbn [fst]. apply Mv; cbn [thr_cond thr_wf]; auto. intros Hb; simp_st. destruct (C Hb) as [U [_ T]]. split.
+      - destruct (up_at_add d (tset t (TFc d FDelP) (s_thr s))) eqn:E; auto.
+        apply up_at_add_tset_fc in E; congruence.
+      - destruct (kmem (kof d) (s_tasks s)); auto. exfalso; apply T; auto. }
+    assert (Hh : h = kof d) by (inversion W; auto).
+    assert (Wr : Forall (fun h' => h' = kof d) rest) by (inversion W; auto).
+    assert (Gen : forall ph', ph' = ph -> (forall ok, ph <> ERet ok) ->
+              Inv (fst (let '(s1, ph1, r) := exec_step fx h ph' up s in
+                        (with_thr s1 (tset t (TFc d (FSync (h :: rest) ph1 att)) (s_thr s1)), r)))).
+    { intros ph' -> NR. subst h.
+      destruct (kmem (kof d) (s_back s)) eqn:Hb.
+      - destruct (exec_step fx (kof d) ph up s) as [[s1 ph1] r] eqn:E.
+        destruct (exec_step_shape _ _ _ _ _ _ _ E) as [T [A [Th [Bm Ff]]]]. cbn [fst].
+        clear Rm Mv. eapply ex_vacuous with (s := s) (d := d); eauto; cbn; auto.
+      - destruct (C eq_refl) as [U [X T]]. destruct X as [Cl Tk]; [discriminate|].
+        pose proof (i_g1 _ _ I _ Hb Tk) as P.
+        assert (G : ph = EOpen false -> fx = true) by (intros ->; eapply G2; eauto).
+        destruct (exec_step_good (kof d) ph up s Hb P Cl G) as [[ph1 [r [E Cl1]]]|[r E]]; rewrite E; cbn [fst].
+        + apply Mv; cbn [thr_cond thr_wf]; auto. intros _; simp_st. split; [|split; auto; intros _; discriminate].
+          destruct (up_at_add d (tset t (TFc d (FSync (kof d :: rest) ph1 att)) (s_thr s))) eqn:E2; auto.
+          apply up_at_add_tset_fc in E2; congruence.
+        + clear Rm Mv. eapply ex_vacuous with (s := s) (d := d); simp_st; eauto; cbn; auto.
+          * apply kmem_add_key_self.
+          * intros; apply kmem_add_key_mono; auto. }
+    destruct ph as [ | |fresh| | |ok];
+      try (apply Gen; [reflexivity | intros ok' HH; discriminate]).
+    destruct ok.
+    + (* SyncExec returned nil: only possible once the blob is in the backend *)
+      destruct (kmem (kof d) (s_back s)) eqn:Hb.
+      * assert (Q : forall pc', thr_wf (TFc d pc') -> Inv (with_thr s (tset t (TFc d pc') (s_thr s)))).
+        { intros pc' W'. apply inv_thr_only; auto.
+          - intros x Hx. apply In_tset in Hx. destruct Hx as [Hx| ->]; auto. right.
+            apply thr_ok_inback; auto.
+          - intros d'; apply up_at_add_tset_fc. }
+        destruct rest; cbn [fst]; apply Q; cbn; auto.
+      * destruct (C eq_refl) as [_ [X _]]. destruct X as [Cl _]; [discriminate|]. discriminate.
+    + destruct (1 <? att); cbn [fst]; auto. apply Mv; cbn [thr_cond thr_wf]; auto.
+      intros Hb; simp_st. destruct (C Hb) as [U [X T]]. destruct X as [_ Tk]; [discriminate|].
+      split; [|split; auto; intros _; discriminate].
+      destruct (up_at_add d (tset t (TFc d (FSync (h :: rest) EStat (att - 1))) (s_thr s))) eqn:E2; auto.
+      apply up_at_add_tset_fc in E2; congruence.
+  - (* FDelP *)
+    destruct (present d (s_files s)) eqn:P; cbn [fst]; auto.
+    clear Rm Mv.
+    eapply inv_upd with (s := s) (d0 := d) (t := t) (th' := TFc d FDel); simp_st; eauto;
+      try apply I; try apply tset_sub.
+    + intros d' Hd. apply flook_fset_other; auto.
+    + intros _. split; cbn; auto.
+    + intros x Hx Hd _.
+      destruct (kmem (kof d) (s_back s)) eqn:Hb.
+      { apply thr_ok_inback; [eapply inv_thr_wf; eauto|]. rewrite Hd; auto. }
+      destruct (C eq_refl) as [U Tk]. destruct (i_thr _ _ I _ Hx) as [Wx Cx]. rewrite Hd in Cx. specialize (Cx Hb).
+      split; auto. intros _. destruct x as [tx [nsx dx pcx|nsx dx phx|dx pcx]]; cbn in Hd; subst dx; simp_st.
+      * destruct pcx; cbn in *; auto.
+        -- rewrite (up_at_add_In _ _ _ _ Hx) in U; discriminate.
+        -- destruct Cx; congruence.
+        -- destruct Cx; congruence.
+      * cbn in Cx. destruct Cx; congruence.
+      * eapply thr_cond_fc; eauto. simp_st. apply up_at_add_tset_fc.
+    + intros Hb Hk. destruct (C Hb) as [_ Tk]. congruence.
+  - (* FDel *)
+    destruct (del_file d s) as [s1 r] eqn:E. cbn [fst].
+    pose proof (del_file_inv _ _ _ _ I E) as I1.
+    apply inv_thr_only; auto.
+    + intros x Hx. apply In_tremove in Hx; auto.
+    + intros d'; apply up_at_add_tremove.
+Qed.
+
+(* ---- every guarded step preserves the invariant *)
+Lemma In_app1 : forall (l : list (N * thread)) y x, In x (l ++ [y]) -> In x l \/ x = y.
+Proof. intros l y x H; apply in_app_or in H; destruct H as [H|[H|[]]]; auto. Qed.
+
+Lemma step_inv : forall s o, Inv s -> guard nsof fx s o = true -> Inv (fst (step fx s o)).
+Proof.
+  intros s o I G. destruct o as [t ns d|t ns d|t d|t up|d| | ]; cbn [step].
+  - cbn in G. apply N.eqb_eq in G. subst ns. destruct (tfree t s); cbn [fst]; auto.
+    apply inv_thr_only; auto.
+    + intros x Hx. apply In_app1 in Hx. destruct Hx as [Hx| ->]; auto. right; split; cbn; auto.
+    + intros d' H. apply up_at_add_app in H. destruct H as [H|[ns H]]; auto; discriminate.
+  - destruct (tfree t s && kmem (ns, d) (s_tasks s) && negb (executing (ns, d) (s_thr s))) eqn:E; cbn [fst]; auto.
+    apply andb_true_iff in E. destruct E as [E _]. apply andb_true_iff in E. destruct E as [_ E].
+    assert (K : (ns, d) = kof d) by (eapply keys_wf_kmem in E; [exact E|apply I]).
+    apply inv_thr_only; auto.
+    + intros x Hx. apply In_app1 in Hx. destruct Hx as [Hx| ->]; auto. right; split; cbn.
+      * inversion K; auto.
+      * intros _; simp_st. rewrite <- K; auto.
+    + intros d' H. apply up_at_add_app in H. destruct H as [H|[ns' H]]; auto; discriminate.
+  - destruct (tfree t s); cbn [fst]; auto.
+    apply inv_thr_only; auto.
+    + intros x Hx. apply In_app1 in Hx. destruct Hx as [Hx| ->]; auto. right; split; cbn; auto.
+    + intros d' H. apply up_at_add_app in H. destruct H as [H|[ns H]]; auto; discriminate.
+  - cbn in G. destruct (tlook t (s_thr s)) as [th|] eqn:Ht; cbn [fst]; auto.
+    destruct th as [ns d pc|ns d ph|d pc].
+    + apply step_up; auto. intros ->. apply negb_true_iff in G; auto.
+    + apply step_ex; auto. intros ->; auto.
+    + apply step_fc; auto.
+      * intros ->. apply negb_true_iff in G; auto.
+      * intros todo att ->; auto.
+  - destruct (del_file d s) as [s1 r] eqn:E. cbn [fst]. eapply del_file_inv; eauto.
+  - cbn [fst]. apply inv_thr_only; auto.
+    + intros x [].
+    + intros d' H; discriminate.
+  - cbn [fst]; auto.
+Qed.
+
+Lemma run_cons : forall s o r, fst (run fx s (o :: r)) = fst (run fx (fst (step fx s o)) r).
+Proof.
+  intros s o r; cbn [run]. destruct (step fx s o) as [s1 x]. cbn [fst].
+  destruct (run fx s1 r) as [s2 xs]; auto.
+Qed.
+
+Lemma nice_inv : forall ops s, Inv s -> nice nsof fx s ops = true -> Inv (fst (run fx s ops)).
+Proof.
+  induction ops as [|o r IH]; intros s I N.
+  - cbn; auto.
+  - cbn [nice] in N. apply andb_true_iff in N. destruct N as [G N]. rewrite run_cons. apply IH; auto.
+    apply step_inv; auto.
 Qed.
 
 End Step.
